@@ -195,8 +195,12 @@ CONTRACTS = [
              cases=[(t, op, 0, sa, sb) for t in NUMERIC for op in BIN for (sa, sb) in SMALL2
                     if not (t in (CT.SINGLE, CT.DOUBLE) and op in ('and', 'or', 'xor', 'eqv', 'imp', 'idiv', 'mod'))
                     and not (op == 'div' and t in (CT.INTEGER, CT.LONG))]),
+    # RETIRED (in neither tier): push a; push b; div on two INTEGER/LONG literals folds to a binary64 quotient.  With float
+    # division encoded as an uninterpreted function the obligation "the folded code can be assembled" is not valid (the
+    # solver may choose infinity for 0 / 2314: a false alarm, not reproducible natively); with bit-precise division z3 did
+    # not decide one case in 15 minutes.  Listed under not_covered for C02; the float windows are in opt.push_push_binary.
     Contract('opt.push_push_binary.intdiv', PROPS, ['qbee.qvm_codegen:QvmCode.optimize'], body_push_push_bin,
-             cases=[(t, 'div', 0, sa, sb) for t in (CT.INTEGER, CT.LONG) for (sa, sb) in SMALL2], tier='thorough',
+             cases=[(t, 'div', 0, sa, sb) for t in (CT.INTEGER, CT.LONG) for (sa, sb) in SMALL2], tier='retired',
              explorer={'prove_timeout_ms': 120000}),
     Contract('opt.markers', ['C02', 'C06', 'C08', 'C11'], ['qbee.qvm_codegen:QvmCode.optimize'], body_markers,
              cases=[(s,) for s in marker_shapes()],
